@@ -6,7 +6,7 @@ set -u
 NAME=$1; CHK=$2; TIER=${3:-quick}
 S=/tmp/st/$NAME.$$; mkdir -p /tmp/st
 git -C /repo worktree add --detach $S/repo HEAD >/dev/null 2>&1 || exit 1
-git -C $S/repo apply /verif/seeded/$NAME/patch.diff || { git -C /repo worktree remove --force $S/repo; exit 1; }
+git -C $S/repo apply ${SEEDDIR:-/verif/seeded}/$NAME/patch.diff || { git -C /repo worktree remove --force $S/repo; exit 1; }
 rsync -a --exclude bin --exclude evidence --exclude replays --exclude .git --exclude seeded /verif/ $S/verif/
 (cd $S/verif && VERIF_REPO=$S/repo timeout 3000 ./run.sh $CHK $TIER 2>&1 | grep -av "replay=" | tail -${LINES_OUT:-6} | cut -c1-400)
 git -C /repo worktree remove --force $S/repo; rm -rf $S
